@@ -31,6 +31,7 @@ import (
 	_ "github.com/multiformats/go-multiaddr-dns"
 
 	"github.com/pkg/errors"
+	codec "github.com/ugorji/go/codec"
 	proto "google.golang.org/protobuf/proto"
 )
 
@@ -576,7 +577,62 @@ type PinOptions struct {
 	ExpireAt             time.Time             `json:"expire_at" codec:"e,omitempty"`
 	Metadata             map[string]string     `json:"metadata" codec:"m,omitempty"`
 	PinUpdate            cid.Cid               `json:"pin_update,omitempty" codec:"pu,omitempty"`
-	Origins              []multiaddr.Multiaddr `json:"origins" codec:"g,omitempty"`
+	Origins              MultiaddrList         `json:"origins" codec:"g,omitempty"`
+}
+
+// MultiaddrList is a list of multiaddresses which knows how to deserialize
+// itself (multiaddr.Multiaddr is an interface, so a plain
+// []multiaddr.Multiaddr can be encoded but not decoded). The serialized
+// forms are those of []Multiaddr.
+type MultiaddrList []multiaddr.Multiaddr
+
+func (l MultiaddrList) wrap() []Multiaddr {
+	if l == nil {
+		return nil
+	}
+	wrapped := make([]Multiaddr, len(l))
+	for i, m := range l {
+		wrapped[i] = NewMultiaddrWithValue(m)
+	}
+	return wrapped
+}
+
+func (l *MultiaddrList) unwrap(wrapped []Multiaddr) {
+	if wrapped == nil {
+		*l = nil
+		return
+	}
+	*l = make(MultiaddrList, len(wrapped))
+	for i, m := range wrapped {
+		(*l)[i] = m.Value()
+	}
+}
+
+// MarshalJSON returns the list as a JSON array of multiaddress strings.
+func (l MultiaddrList) MarshalJSON() ([]byte, error) {
+	return json.Marshal(l.wrap())
+}
+
+// UnmarshalJSON parses a JSON array of multiaddress strings.
+func (l *MultiaddrList) UnmarshalJSON(data []byte) error {
+	var wrapped []Multiaddr
+	if err := json.Unmarshal(data, &wrapped); err != nil {
+		return err
+	}
+	l.unwrap(wrapped)
+	return nil
+}
+
+// CodecEncodeSelf implements codec.Selfer.
+func (l MultiaddrList) CodecEncodeSelf(e *codec.Encoder) {
+	e.MustEncode(l.wrap())
+}
+
+// CodecDecodeSelf implements codec.Selfer.
+func (l *MultiaddrList) CodecDecodeSelf(d *codec.Decoder) {
+	var wrapped []Multiaddr
+	d.MustDecode(&wrapped)
+	l.unwrap(wrapped)
 }
 
 // Equals returns true if two PinOption objects are equivalent. po and po2 may
